@@ -976,7 +976,7 @@ func (e *Engine) timeStampFilterTarFile(start, end time.Time) func(f os.FileInfo
 		// We overlap time ranges, we need to filter the file
 		if min >= stun && min <= eun && max > eun || // overlap to the right
 			max >= stun && max <= eun && min < stun || // overlap to the left
-			min <= stun && max >= eun { // TSM file has a range LARGER than the boundary
+			min <= stun && max >= eun && (min < stun || max > eun) { // TSM file has a range LARGER than the boundary
 			err := e.filterFileToBackup(r, fi, shardRelativePath, fullPath, start.UnixNano(), end.UnixNano(), tw)
 			if err != nil {
 				if err := r.Close(); err != nil {
